@@ -388,7 +388,7 @@ class TextTiny(Op):
             m = gens.mode(rng)
             anchor = R.gen_anchor(rng, m)
             anchor = T.tp_from_inst(m, T.inst(m, anchor), anchor[0], anchor[7], anchor[8])
-            if not 0 <= anchor[1] <= 9000:
+            if not 2 <= anchor[1] <= 9000:      # (duration/end series reach back before the anchor; years below 0 do not print)
                 continue
             unit = rng.choice(["seconds", "seconds", "minutes", "hours"])
             yield (m, anchor, unit, rng.randrange(len(self.VALUES)), rng.choice([None, 2, 3, 5]), rng.choice([3, 4]),
